@@ -35,11 +35,6 @@ theorem count_setAt_false (l : List Bool) (i : Nat) (h : l[i]? = some true) :
     simp [List.count_append]; omega
   simp [setAt, List.count_append, this]; omega
 
-theorem lt_of_getElem?_eq_some {α : Type} {l : List α} {i : Nat} {x : α} (h : l[i]? = some x) : i < l.length := by
-  rcases Nat.lt_or_ge i l.length with h' | h'
-  · exact h'
-  · simp [List.getElem?_eq_none h'] at h
-
 /-! ### `get` -/
 
 theorem maskAt_true_iff (a : Arena T) (i : Nat) : a.maskAt i = true ↔ a.mask[i]? = some true := by
